@@ -314,7 +314,7 @@ theorem loadNodeDecl_render (doc : Bytes) (n : Bytes) (as : List (Bytes × Bytes
   have hseg : seg doc p (p + (declBytes n as).length) = declBytes n as := by
     have := seg_of_drop hd 0 (declBytes n as).length
     simpa using this
-  simp only [splitSpec, hseg, splitAux_decl n as hn ha p, List.length_cons, attrCurs_length, SPLIT_CAP]
+  simp only [splitSpec, hseg, splitAux_decl n as hn ha p, List.length_cons, attrCurs_length, SPLIT_CAP_eq]
   by_cases hcap : as.length ≤ 10
   · have : as.length + 1 ≤ 11 := by omega
     simp only [this, hcap, if_true]
@@ -323,6 +323,10 @@ theorem loadNodeDecl_render (doc : Bytes) (n : Bytes) (as : List (Bytes × Bytes
     obtain ⟨⟨xs, le2⟩, hxs, hle2, hmap⟩ := loadAttrs_render doc as (p + n.length) _ le ha hd2
     rw [hxs]
     simp only at hle2 hmap ⊢
+    -- all attributes found a slot in `node->attributes`
+    have hxl : xs.length = as.length := by rw [← hmap, List.length_map]
+    have htake : xs.take ATTR_CAP = xs := List.take_of_length_le (by rw [ATTR_CAP_eq]; omega)
+    rw [htake]
     refine ⟨_, rfl, hle2, _, rfl, rfl, rfl, ?_, hmap⟩
     simp [hz]
   · have : ¬ (as.length + 1 ≤ 11) := by omega
